@@ -121,7 +121,9 @@ def altitude(msg: str) -> None | int:
         int: altitude in ft
 
     """
-    return common.altcode(msg)
+    alt = common.altcode(msg)
+    # the Cython common module returns -999999 / -1 instead of None
+    return None if alt is None or alt in (-999999, -1) else alt
 
 
 @_checkdf
